@@ -27,10 +27,10 @@ TrSort    == Is("Sort") /\ Sort
              /\ SeqSet(E.order) = tasks
              /\ \A e \in edges : Pos(E.order, e[1]) < Pos(E.order, e[2])
              /\ {<<g[1], g[2]>> : g \in SeqSet(E.edges)} = edges
-\* one task evaluated: enabled in the model (all dependencies stored), reads exactly its dependencies, from the iso store
+\* one task evaluated: enabled in the model (all dependencies stored), reads exactly its dependencies
+\* (WHICH store they are read from is C02's clause, validated by Trace_ShearAdi.tla, not here)
 TrEval    == Is("Eval") /\ Eval(E.task)
              /\ {r[1] : r \in SeqSet(E.reads)} = DepSet(E.task)
-             /\ \A r \in SeqSet(E.reads) : r[2] = "iso"
 TrFinish  == Is("Done") /\ Finish
 \* get_isothermal_results / get_adiabatic_results: the entry returned for key k is the root task of k
 TrGet     == Is("Get") /\ phase = "done" /\ E.task = Root(E.key) /\ E.task \in isoDone /\ E.task \in adiDone
